@@ -14,6 +14,7 @@
 import EG.Lemmas.StyledRectDraw
 import EG.Props.C16
 namespace EG.C06.Rectangle
+open EG.Tgt
 open EG EG.Rect EG.StyledRect
 
 /-! ### The split of the stroke width -/
